@@ -685,12 +685,19 @@ Definition step3 (c : cfg) (rec : rec_t) (s : bytes) (p : path) (ignore strip : 
       else if is_ws_kind k then
         if negb (s_skipws x) && (k =? K_WhiteSpace_Space) then emit_node s p t x else ROk x
       else if k =? K_Comment then
-        if negb strip then emit_node s p t x
+        if negb strip then
+          do l <- node_locate t;
+          let w := lstr s l in
+          let x1 := emit w (Some (p, lrange l)) x in
+          (* a one-line comment that runs to the end of a macro expansion is closed by a newline *)
+          if (0 <? rdepth) && starts_with [47;47] w && negb (ends_with [10] w)
+          then ROk (emit [10] (Some (p, mkR (l_off l + l_len l - 1) (l_off l + l_len l))) x1)
+          else ROk x1
         else
           do l <- node_locate t;
           let w := lstr s l in
           if starts_with [47;42] w then ROk (emit [32] (Some (p, mkR (l_off l) (l_off l + 1))) x)
-          else if ends_with [10] w then
+          else if ends_with [10] w || (0 <? rdepth) then
             ROk (emit [10] (Some (p, mkR (l_off l + l_len l - 1) (l_off l + l_len l))) x)
           else ROk x
       else if k =? K_TextMacroDefinition then define_enter s p t x
